@@ -162,6 +162,60 @@ class FileTimestamp(Harness):
         return AND(t.timestamp == mtime_link, t.size == size)
 
 
+class StoreTimestamp(Harness):
+    """a (re-)stored tile gets the time of the store as its timestamp, whatever timestamp the tile
+    object still carries from an earlier load (a refreshed tile must not look stale again)"""
+    modules = ['mapproxy.cache.mbtiles']
+    functions = ['MBTilesCache._store_bulk', 'MBTilesCache.store_tile', 'MBTilesCache.store_tiles']
+
+    @classmethod
+    def build(cls, L, cfg):
+        return dict(m=L.mods['mapproxy.cache.mbtiles'])
+
+    @classmethod
+    def inputs(cls, ctx, cfg):
+        now, old = real_var('now'), real_var('old_timestamp')
+        assume(AND(now >= 1, old >= 0, old <= now))
+        return dict(now=now, old=old, has_old=bool_var('tile_carries_old_timestamp'))
+
+    @classmethod
+    def prop(cls, ctx, cfg, now, old, has_old):
+        import contextlib
+        import io
+        import types
+        m = ctx['m']
+        recs = []
+
+        class Cur(object):
+            def executemany(self, stmt, records):
+                recs.extend(records)
+
+        class DB(object):
+            def cursor(self):
+                return Cur()
+
+            def commit(self):
+                pass
+        m.__dict__['time'] = types.SimpleNamespace(time=lambda: now)
+
+        @contextlib.contextmanager
+        def tile_buffer(tile):
+            yield io.BytesIO(b'DATA')
+            tile.stored = True
+        m.__dict__['tile_buffer'] = tile_buffer
+        cache = m.MBTilesCache.__new__(m.MBTilesCache)
+        cache.supports_timestamp = True
+        cache._db_conn_cache = types.SimpleNamespace(db=DB())
+        from props.C05_cachemap import FakeTile
+        t = FakeTile((1, 2, 3), source='img')
+        t.timestamp = old if (bool(has_old) if isinstance(has_old, SymBool) else has_old) else None
+        if cfg.get('via') == 'store_tiles':
+            cache.store_tiles([t])
+        else:
+            cache.store_tile(t)
+        return AND(len(recs) == 1, recs[0][:3] == (3, 1, 2), recs[0][4] == now)
+
+
 class FakeDT(object):
     def __init__(self, t):
         self.t = t
@@ -262,6 +316,8 @@ CANARIES = [
      dict(meta=False, with_threshold=True)),
     ('file tile timestamp follows symbolic links', 'FileTimestamp', {'mapproxy.cache.file': [(
         "            stats = os.lstat(location)", "            stats = os.stat(location)")]}, dict(via='load_tile')),
+    ('re-stored sqlite tile keeps its old timestamp', 'StoreTimestamp', {'mapproxy.cache.mbtiles': [(
+        "                    records.append((level, x, y, content, time.time()))", "                    records.append((level, x, y, content, tile.timestamp or time.time()))")]}, dict(via='store_tile')),
     ('relative threshold computed once', 'RelativeThreshold', {'mapproxy.cache.tile': [(
         "            return before_timestamp_from_options(self._refresh_before)",
         "            if self._expire_timestamp is None:\n                self._expire_timestamp = before_timestamp_from_options(self._refresh_before)\n            return self._expire_timestamp")]},
@@ -280,6 +336,8 @@ def obligations(tier, seed):
     deltas = [{'hours': 4}, {'days': 1, 'minutes': 2}, {'weeks': 2}, {'seconds': 30}]
     for d in (deltas if tier == 'thorough' else deltas[:2]):
         specs.append(spec(MOD, 'RelativeThreshold', 'relative-threshold/%s' % '-'.join('%s%s' % kv for kv in d.items()), cfg=dict(delta=d)))
+    for via in ('store_tile', 'store_tiles'):
+        specs.append(spec(MOD, 'StoreTimestamp', 'sqlite-store-records-now/%s' % via, cfg=dict(via=via)))
     for via in ('load_tile_metadata', 'load_tile'):
         specs.append(spec(MOD, 'FileTimestamp', 'file-tile-timestamp/%s' % via, cfg=dict(via=via)))
     specs.append(spec(MOD, 'Refresh', 'twin/Refresh', kind='witness', cfg=dict(meta=False, with_threshold=True)))
@@ -299,7 +357,7 @@ META = dict(
                 'a failing refresh stores/removes nothing and serves the old tile; for a 2x2 meta tile: all fresh => no '
                 'request, any expired => exactly one request storing all four tiles; relative thresholds are re-evaluated '
                 'against the clock on every call (threshold = floor(now - delta)).',
-    functions=Refresh.functions + RelativeThreshold.functions + FileTimestamp.functions,
+    functions=Refresh.functions + RelativeThreshold.functions + FileTimestamp.functions + StoreTimestamp.functions,
     bounds='timestamps >= 0, thresholds whole seconds >= 0; single tile and one 2x2 meta tile; one request; clock: two arbitrary '
            'non-decreasing instants',
     outside='the sub-second band ts in (T, T+1) (documented truncation, either behaviour accepted), mktime/strptime (C library; '
